@@ -25,8 +25,10 @@ func gen(tier string, seed int64) []mon.Case {
 			d = GenMulti(r)
 		case x < 46:
 			d = GenPlat(r)
+		case x < 58:
+			d = GenShared(r)
 		default:
-			x = (x - 46) * 20 / 154
+			x = (x - 58) * 20 / 142
 			d = genSingle(r, x)
 		}
 		cs = append(cs, mon.MkCase(fmt.Sprintf("c12/%05d", i), d))
@@ -57,6 +59,8 @@ func run(c mon.Case) mon.Result {
 		return RunMulti(d)
 	case d.Kind == "platform":
 		return RunPlat(d)
+	case d.Kind == "shared":
+		return RunShared(d)
 	}
 	return RunDialogue(d)
 }
@@ -79,6 +83,8 @@ func init() {
 			"asks/grants/refuses/rejects, secondary secret set or unset, the device's answer delivered whole or cut into two reads at any position, preferably behind a colon. " +
 			"Answers longer than the search depth (default and small) with lines whose tail looks like a prompt (<rpc-reply>, ...sw1#, $1$abc$) to events that wait for the prompt, half of them delivered byte-wise so that (bytes read - depth) visits every offset inside every tail. " +
 			"Early finishes in which completion text, text matching the event's expected response and the prompt arrive in one atomic segment (completion wins), and escalations without a password question whose notice line matches a loose escalate prompt in one segment with the prompt (own bare-text levels; cumulus_linux 'sudo: unable to resolve host ...'). " +
+			"Pairs of sessions that are sent the SAME event objects, one with the default prompt pattern and one with a strict pattern of its own whose device prints default-prompt-looking lines ahead of its real prompt (both orders). " +
+			"In exact mode a third of the plain commands are multi-line inputs whose last line recurs inside an earlier line, echoed in segments. " +
 			"Distinct = distinct descriptor hash.",
 		Assumptions: []string{
 			"device is causal (devsim.CLI): echoes visible input, reads hidden input without echo, reacts to a line only when its return arrived",
